@@ -230,6 +230,11 @@ def rule_cmds(repo, chk):
         consts = [c.value for r in rets for c in ast.walk(r) if isinstance(c, ast.Constant) and isinstance(c.value, str)]
         ok = ok and not any('\r' in c or '\n' in c for c in consts)
         chk.ob('e', f.ref, 'the command is built by Message(...) from its arguments', ok, loc(f, f.node), discr=f'ctor:{f.name}')
+        # the command word is the constructor's own name, a constant: no argument value can end up in the command slot
+        names = [r.value.args[0].args[0] if (isinstance(r.value, ast.Call) and r.value.args and isinstance(r.value.args[0], ast.Call) and r.value.args[0].args) else None for r in rets]
+        okc = bool(names) and all(isinstance(a, ast.Constant) and isinstance(a.value, str) and a.value.upper() == f.name.upper() for a in names)
+        chk.ob('e', f.ref, 'the command word of the message is the constant name of the constructor', okc, loc(f, f.node),
+               detail='; '.join(src(a) if a is not None else '?' for a in names), discr=f'command-word:{f.name}')
     need(n_cmds >= 15, f'C18.e: only {n_cmds} IRC command constructors found, 20 confirmed by hand')
     p = repo.func('circuits/protocols/irc/protocol.py', 'IRC.request')
     chk.touch(p)
